@@ -623,6 +623,28 @@ func (e *exprEnv) resolveType(x ast.Expr) (types.Type, error) {
 func (e *exprEnv) call(n *ast.CallExpr) (cval, error) {
 	B := e.B()
 	t := e.f.t
+	// conversion of a concrete value to an interface type: Entry(s)
+	if len(n.Args) == 1 {
+		if id, ok := n.Fun.(*ast.Ident); ok {
+			if _, isVar := e.vars[id.Name]; !isVar {
+				if T, err := e.resolveType(id); err == nil {
+					if _, isI := T.Underlying().(*types.Interface); isI {
+						v, err := e.expr(n.Args[0])
+						if err != nil {
+							return cval{}, err
+						}
+						if v.typ == nil {
+							return cval{}, fmt.Errorf("conversion of an untyped term")
+						}
+						if _, already := v.typ.Underlying().(*types.Interface); already {
+							return cval{term: v.term, typ: T}, nil
+						}
+						return cval{term: e.f.makeIface(v.typ, v.term), typ: T}, nil
+					}
+				}
+			}
+		}
+	}
 	if id, ok := n.Fun.(*ast.Ident); ok {
 		name := id.Name
 		switch name {
@@ -1623,7 +1645,7 @@ func selectPatterns(body, qv string) []string {
 // would otherwise only occur below the resulting universal quantifier and no E-matching trigger of the hypotheses
 // could fire on them.
 func (e *exprEnv) exposeOuter(body ast.Expr, bound string, term string) string {
-	if os.Getenv("GVC_EXPOSE") == "" { // experimental, off by default: it slows down proofs that do not need it
+	if os.Getenv("GVC_EXPOSE") == "" && (e.f.t.fc == nil || !e.f.t.fc.Expose) { // opt-in per contract (`expose`): it slows down proofs that do not need it
 		return term
 	}
 	B := e.B()
